@@ -81,7 +81,11 @@ func (ci ContractInvocation) MarshalJSON() ([]byte, error) {
 		if err != nil {
 			return nil, err
 		}
-		args = si.(*stackitem.Array)
+		var ok bool
+		args, ok = si.(*stackitem.Array)
+		if !ok {
+			return nil, fmt.Errorf("failed to convert invocation arguments of type %s to array", si.Type().String())
+		}
 	}
 	if args != nil {
 		var err error
